@@ -206,4 +206,96 @@ theorem handle_ok (b64 : List Nat → Option (List Nat)) (st : VState) (s : Seq)
   | apc d => simp [handle, post, ok_ite, ok_ok]
   | _ => simp [handle, keyArm, ok_ok]
 
+/-! ### consumed replies post only internal events -/
+
+/-- Posts of an effect are of internal (unexported) event types. -/
+def effInternal : Effect → Bool
+  | .postB e | .postNB e => !e.userVisible
+  | _ => true
+
+/-- What a consumed reply may do: post only internal events and leave the paste and
+cursor-request flags alone. -/
+def replyOK (st : VState) : Res → Bool
+  | .ok (st', effs) => effs.all effInternal && st'.pastePending == st.pastePending && st'.reqCursorPos == st.reqCursorPos
+  | .error _ => true
+
+theorem replyOK_ite (st : VState) (c : Prop) [Decidable c] (a b : Res) :
+    replyOK st (if c then a else b) = if c then replyOK st a else replyOK st b := by split <;> rfl
+
+def isQueryReplyCSI (interm : List Nat) (params : List (List Int)) (final : Nat) : Bool :=
+  (final == ch 'c' && isPrivate interm) || (final == ch 'S' && isPrivate interm && decide (3 ≤ params.length)) ||
+  final == ch 'y' || (final == ch 'u' && isPrivate interm) ||
+  (final == ch 't' && !(params.head?.bind List.head? == some 48)) ||
+  (final == ch 'n' && isPrivate interm && params.length == 2 && !(params.head?.bind List.head? == some 997))
+
+
+macro "reply_simp" : tactic => `(tactic|
+  simp [handleCSI, idx2, idx, keyArm, post, decrpmArm, bind, Except.bind, pure, Except.pure, replyOK_ite, replyOK, effInternal,
+    Event.userVisible, isPrivate, ch, VaxisModel.Gen.Caps.colorThemeResp])
+
+theorem reply_c (st : VState) (interm : List Nat) (params : List (List Int)) (hp : isPrivate interm = true) :
+    replyOK st (handleCSI st interm params (ch 'c')) = true := by
+  cases hm : params.mapM (fun ps => idx ps 0) with
+  | error e => simp [handleCSI, hp, hm, bind, Except.bind, replyOK]
+  | ok fs =>
+    simp [handleCSI, hp, hm, bind, Except.bind, pure, Except.pure, replyOK, effInternal, Event.userVisible]
+
+theorem reply_u (st : VState) (interm : List Nat) (params : List (List Int)) (hp : isPrivate interm = true) :
+    replyOK st (handleCSI st interm params (ch 'u')) = true := by
+  simp [handleCSI, hp, post, ch, replyOK, effInternal, Event.userVisible]
+
+theorem reply_S (st : VState) (interm : List Nat) (params : List (List Int)) (hp : isPrivate interm = true)
+    (hl : 3 ≤ params.length) : replyOK st (handleCSI st interm params (ch 'S')) = true := by
+  rcases params with _ | ⟨a, _ | ⟨b, _ | ⟨c, rest⟩⟩⟩
+  · simp at hl
+  · simp at hl
+  · simp at hl
+  · have h3 : ¬ (rest.length + 1 + 1 + 1 < 3) := by omega
+    rcases a with _ | ⟨a0, as⟩ <;> rcases b with _ | ⟨b0, bs⟩ <;>
+    simp [handleCSI, hp, idx2, idx, post, bind, Except.bind, pure, Except.pure, replyOK_ite, ch, h3] <;> simp [replyOK, effInternal, Event.userVisible]
+
+theorem reply_y (st : VState) (interm : List Nat) (params : List (List Int)) :
+    replyOK st (handleCSI st interm params (ch 'y')) = true := by
+  rcases params with _ | ⟨a, _ | ⟨b, rest⟩⟩
+  · simp [handleCSI, ch, replyOK]
+  · rcases a with _ | ⟨a0, as⟩ <;>
+    simp [handleCSI, idx2, idx, post, decrpmArm, bind, Except.bind, pure, Except.pure, replyOK_ite, ch] <;> simp [replyOK, effInternal, Event.userVisible]
+  · rcases a with _ | ⟨a0, as⟩ <;> rcases b with _ | ⟨b0, bs⟩ <;>
+    simp [handleCSI, idx2, idx, post, decrpmArm, bind, Except.bind, pure, Except.pure, replyOK_ite, ch] <;> simp [replyOK, effInternal, Event.userVisible]
+
+theorem reply_n (st : VState) (interm : List Nat) (a b : List Int) (hp : isPrivate interm = true)
+    (h997 : a.head? ≠ some 997) : replyOK st (handleCSI st interm [a, b] (ch 'n')) = true := by
+  rcases a with _ | ⟨a0, as⟩ <;> rcases b with _ | ⟨b0, bs⟩ <;>
+  simp [handleCSI, hp, idx2, idx, bind, Except.bind, pure, Except.pure, replyOK_ite, ch, VaxisModel.Gen.Caps.colorThemeResp] <;> simp_all [replyOK, effInternal, Event.userVisible]
+
+theorem reply_t (st : VState) (interm : List Nat) (params : List (List Int))
+    (h48 : params.head?.bind List.head? ≠ some 48) : replyOK st (handleCSI st interm params (ch 't')) = true := by
+  rcases params with _ | ⟨a, _ | ⟨b, _ | ⟨c, rest⟩⟩⟩
+  · simp [handleCSI, ch, replyOK]
+  · simp [handleCSI, ch, replyOK]
+  · simp [handleCSI, ch, replyOK]
+  · have h3 : ¬ (rest.length + 1 + 1 + 1 < 3) := by omega
+    rcases a with _ | ⟨a0, as⟩ <;> rcases b with _ | ⟨b0, bs⟩ <;> rcases c with _ | ⟨c0, cs⟩ <;>
+    simp [handleCSI, idx2, idx, post, bind, Except.bind, pure, Except.pure, replyOK_ite, ch, h3] <;> simp_all [replyOK, effInternal, Event.userVisible]
+
+theorem reply_dcs (st : VState) (final : Nat) (interm : List Nat) (params : List Int) (data : List Nat) :
+    replyOK st (handleDCS st final interm params data) = true := by
+  unfold handleDCS
+  obtain ⟨v0, vt, hv⟩ := splitOn_ne_nil (ch '=') data
+  rcases interm with _ | ⟨i0, irest⟩ <;> rcases params with _ | ⟨p0, prest⟩ <;> rcases data with _ | ⟨d0, drest⟩ <;>
+  simp [hv, idx, post, bind, Except.bind, pure, Except.pure, replyOK_ite, suffix_q_nil] <;>
+  simp [replyOK, effInternal, Event.userVisible]
+
+theorem all_ite (c : Prop) [Decidable c] (a b : List Effect) (f : Effect → Bool) :
+    (if c then a else b).all f = if c then a.all f else b.all f := by split <;> rfl
+
+theorem reply_osc (b64 : List Nat → Option (List Nat)) (st : VState) (payload : List Nat) :
+    replyOK st (handleOSC b64 st payload) = true := by
+  unfold handleOSC
+  generalize splitOn (ch ';') payload = vals
+  rcases vals with _ | ⟨v0, _ | ⟨v1, _ | ⟨v2, _ | ⟨v3, vrest⟩⟩⟩⟩ <;>
+  simp [idx, bind, Except.bind, pure, Except.pure, replyOK_ite] <;>
+  (try cases b64 v2) <;>
+  simp [replyOK, List.all_append, all_ite, effInternal, Event.userVisible]
+
 end VaxisModel.Lemmas.Input
